@@ -27,6 +27,11 @@ func runC06(c *Ctx) {
 	if !a.ok(c, "C06") {
 		return
 	}
+	// hit may delegate parts of the exchange to single-site helpers (readBody, …): analysed as inlined
+	withInline(func() { runC06Hit(c, a) }, a.Hit)
+}
+
+func runC06Hit(c *Ctx, a *attackAnchors) {
 	hit := a.Hit
 	dos := callsNamed(hit, "(*net/http.Client).Do")
 	if len(dos) != 1 {
@@ -46,7 +51,15 @@ func runC06(c *Ctx) {
 		return
 	}
 	isRespBody := func(v ssa.Value) bool {
-		ld, ok := isLoad(stripIface(v))
+		for k := 0; k < 4; k++ {
+			v = stripIface(v)
+			if r := rootVal(v); r != v {
+				v = r
+				continue
+			}
+			break
+		}
+		ld, ok := isLoad(v)
 		if !ok {
 			return false
 		}
@@ -82,8 +95,8 @@ func runC06(c *Ctx) {
 
 	// ---- read + drain
 	const rDrain = "after the (possibly limited) io.ReadAll succeeds, io.Copy(io.Discard, r.Body) on the unlimited body is passed before any return, unconditionally, and its error is checked"
-	ras := callsNamed(hit, "io.ReadAll")
-	cps := callsNamed(hit, "io.Copy")
+	ras := callsNamedI(hit, "io.ReadAll")
+	cps := callsNamedI(hit, "io.Copy")
 	var ra, cp *ssa.Call
 	if len(ras) == 1 {
 		ra = ras[0].(*ssa.Call)
@@ -94,7 +107,7 @@ func runC06(c *Ctx) {
 	if ra == nil || cp == nil {
 		c.Fail("body-drained:(*lib.Attacker).hit", rDrain, fmt.Sprintf("%d io.ReadAll and %d io.Copy calls in hit; want 1 and 1", len(ras), len(cps)), c.fnAt(hit))
 	} else {
-		raIf := errNotNilIf(ra, ra)
+		raIf := errNotNilIfI(ra)
 		ok := raIf != nil
 		why := "the ReadAll error is not tested"
 		if ok {
@@ -110,7 +123,7 @@ func runC06(c *Ctx) {
 			if describeVal(cp.Call.Args[0]) != "*Discard" && describeVal(cp.Call.Args[0]) != "Discard" {
 				ok, why = false, "the drain does not discard (dst is "+describeVal(cp.Call.Args[0])+")"
 			}
-			if errNotNilIf(cp, cp) == nil {
+			if errNotNilIfI(cp) == nil {
 				ok, why = false, "a read error while draining is ignored"
 			}
 		}
@@ -133,11 +146,11 @@ func runC06(c *Ctx) {
 			}
 			if plain != nil && lim != nil {
 				lc := lim.(*ssa.Call)
-				okL = isRespBody(lc.Call.Args[0]) && attackerFieldLoad(lc.Call.Args[1], "maxBody")
+				okL = isRespBody(lc.Call.Args[0]) && attackerFieldLoad(rootVal(lc.Call.Args[1]), "maxBody")
 				if okL {
 					okL = false
 					for _, f := range factsAt(limPred) {
-						if bo, isBo := f.Cond.(*ssa.BinOp); isBo && f.Val && bo.Op == token.GEQ && attackerFieldLoad(bo.X, "maxBody") {
+						if bo, isBo := f.Cond.(*ssa.BinOp); isBo && f.Val && bo.Op == token.GEQ && attackerFieldLoad(rootVal(bo.X), "maxBody") {
 							if z, isZ := constInt(bo.Y); isZ && z == 0 {
 								okL = true
 							}
@@ -183,7 +196,7 @@ func runC06(c *Ctx) {
 		c.Check(okG, "no-lost-error:(*lib.Attacker).hit:deferred", rErr, "Result.Error = err.Error() when err != nil", "the deferred conversion of err is missing its err != nil guard or reads another variable", c.fnAt(a.HitDefer))
 		errT := types.Universe.Lookup("error").Type()
 		n := 0
-		eachInstr(hit, func(i ssa.Instruction) {
+		eachInstrI(hit, func(i ssa.Instruction) {
 			call, ok := i.(*ssa.Call)
 			if !ok {
 				return
@@ -217,11 +230,20 @@ func runC06(c *Ctx) {
 					stored = true
 				}
 			}
+			fromEv := func(v ssa.Value) bool { return flowsFrom(v, func(x ssa.Value) bool { return x == ev }) }
+			if !stored && call.Parent() != hit {
+				// inside a helper: the error reaches the reported cell through the helper's result
+				eachInstr(hit, func(j ssa.Instruction) {
+					if st, isSt := j.(*ssa.Store); isSt && rootCell(st.Addr) == errCell && fromEv(st.Val) {
+						stored = true
+					}
+				})
+			}
 			if !stored {
 				c.Fail(key, rErr, "the error of "+callLabel(call)+" is kept in a different variable than the one reported (shadowed err): a failure would produce an empty error text", c.at(call))
 				return
 			}
-			ifi := errNotNilIf(call, call)
+			ifi := errNotNilIfI(call)
 			if ifi == nil {
 				c.Fail(key, rErr, "the error of "+callLabel(call)+" is never tested", c.at(call))
 				return
@@ -229,7 +251,7 @@ func runC06(c *Ctx) {
 			set := exploreBlock(ifi.Block().Succs[0], nil)
 			bad := len(returnsIn(set)) == 0
 			for x := range set {
-				if st, isSt := x.(*ssa.Store); isSt && rootCell(st.Addr) == errCell {
+				if st, isSt := x.(*ssa.Store); isSt && rootCell(st.Addr) == errCell && !(call.Parent() != hit && fromEv(st.Val)) {
 					bad = true
 				}
 				if _, isIf := x.(*ssa.If); isIf {
@@ -263,8 +285,17 @@ func runC06(c *Ctx) {
 			if call == nil {
 				continue
 			}
-			ifi := errNotNilIf(call, call)
-			if ifi == nil || !edgeDominates(ifi.Block(), 1, cs.Block()) {
+			ifi := errNotNilIfI(call)
+			okDom := ifi != nil
+			if okDom {
+				if ifi.Parent() == cs.Parent() {
+					okDom = edgeDominates(ifi.Block(), 1, cs.Block())
+				} else {
+					// the test lives in a helper: the store is unreachable from its error edge and reachable from its ok edge
+					okDom = !exploreBlock(ifi.Block().Succs[0], nil)[ssa.Instruction(cs)] && exploreBlock(ifi.Block().Succs[1], nil)[ssa.Instruction(cs)]
+				}
+			}
+			if !okDom {
 				ok, why = false, "the status code is recorded before "+callLabel(call)+" is known to have succeeded: a body read error would leave a success status next to an error"
 			}
 		}
@@ -299,6 +330,7 @@ func runC06(c *Ctx) {
 		}
 	})
 	norm := func(v ssa.Value) string {
+		v = helperResult(v)
 		if ex, ok := v.(*ssa.Extract); ok {
 			if call, isCall := ex.Tuple.(*ssa.Call); isCall && callName(&call.Call) == "io.ReadAll" {
 				return "io.ReadAll(body)#0"
